@@ -408,11 +408,12 @@ func (n *Node) Truncate(req *proto.TruncateRequest) (*proto.TruncateResponse, er
 	if n.Down() {
 		return nil, errNodeDown
 	}
-	appliedBefore := n.AppliedOffset()
 	follower, err := n.Director.GetOrCreateFollower(req.Namespace, req.Shard, req.Term)
 	if err != nil {
 		return nil, err
 	}
+	// (read after the controller exists: on a node that has just restarted the database is opened by it)
+	appliedBefore := n.AppliedOffset()
 	res, err := follower.Truncate(req)
 	if err == nil {
 		if res.HeadEntryId.Offset < appliedBefore {
